@@ -99,8 +99,15 @@ def run(ctx, chk):
                     dst, src, n = e.args[0], e.args[1], e.args[2]
                     okd = W is not None and dst[0] == "idx" and dst[1] == BUF and same_sum(dst[3][0], W)
                     guard = ("icmp", "uge", ("op", "sub", "i64", SIZE, W), n) if W is not None else None
-                    okg = W is not None and any(t[0] == "icmp" and t[1] == "uge" and t[3] == n and truth and t[2][0] == "op" and t[2][1] == "sub"
-                                                and t[2][3] == SIZE and same_sum(t[2][4], W) for t, truth, _ in pa.facts)
+                    okg = False
+                    if W is not None:
+                        for t, truth, _ in pa.facts:
+                            if t[0] != "icmp":
+                                continue
+                            for rem in (t[2], t[3]):
+                                if isinstance(rem, tuple) and rem[0] == "op" and rem[1] == "sub" and rem[3] == SIZE and same_sum(rem[4], W):
+                                    if st.rel_ge(rem, n):
+                                        okg = True
                     okl = length_announced is not None and n == length_announced
                     chk.ob("C07.memcpy", "%s path %d: payload copy" % (name, k), okd and okg and okl, e.ins.loc(), fn=name,
                            key="%s:memcpy" % name,
